@@ -36,8 +36,8 @@ CLAIMS = {
       "Algorithm sets and registration orders on both sides (universe gzip, rev, rev2 incl. re-registering gzip) x send compression x compress-min-bytes x sizes around the threshold x protocol x kind; request / response encoding headers, accept lists, per-message flags, the unimplemented rejection without running user code and payload equality must be what Wire.tla computes.",
       "The 'corrupt call does not affect later calls' clause is exercised by the pool checks of C13.", "6 C08"),
   "C09": claim("Frames.tla (LimitExact, NoSpuriousLimit) / TraceFrames.tla + allocation bound: " + PIPE,
-      "Sizes N-1, N, N+1, >>N on the wire and after inflation at stream positions 1..3, both directions, three protocols, stream- and unary-shaped APIs; plus memory attacks run one at a time (64 MiB gzip bomb under a 128 KiB limit, a prefix declaring 1 GiB, the largest possible limit) with runtime.MemStats.TotalAlloc bounded by 8N + 8 MiB.",
-      "Known finding (open): the limit is also applied to terminator frames.", "6 C09"),
+      "Sizes N-1, N, N+1, >>N on the wire and after inflation at stream positions 1..3, both directions, three protocols, stream- and unary-shaped APIs; plus memory attacks run one at a time (64 MiB gzip bomb under a 128 KiB limit, a prefix declaring 1 GiB in a message envelope and in an envelope flagged as terminator, the largest possible limit) with runtime.MemStats.TotalAlloc bounded by 8N + 8 MiB.",
+      "The limit applies to every envelope, terminator frames included (they are buffered whole); the allocation bound is an auxiliary monitor on the same executions.", "6 C09"),
   "C10": claim("Scalars.tla + TimeoutGrammar.tla (TLC) + Timeout.tla (Apalache, whole 63-bit range) / TraceScalars.tla, TraceServe.tla",
       "Apalache proves the gRPC encoding bound (at most 8 digits, never longer, loses < 1 unit and < 0.01%) for every duration in 1..2^63-1; the real encoder is compared with the TLA+ operator on vectors and swept over boundary + random 63-bit durations against the library's own parser; the header a real client sends for a deadline is bracketed; every timeout string of the grammar model (grammatical, signed, fractional, over-long, unit-less ...) is served by the real handler and the deadline user code sees is compared with TimeoutGrammar.tla.",
       "Wall-clock slack between ctx.Deadline() and the header is measured per call.", "6 C10"),
